@@ -24,6 +24,8 @@ def make_labels(rng, n, ltype):
             x = str(rng.choice([rng.rint(-9, 9), rng.rint(-1000, 1000), rng.rint(-(1 << 40), 1 << 40)]))
         else:
             x = rng.choice(['v', 'node', 'Z', 'a', 'x_']) + str(rng.below(500)) + rng.choice(['', 'b', '-q', '.7'])
+        if ltype == 's' and rng.chance(0.08):
+            x = '\\e'                      # the EMPTY string (spelled \e in a case line; the smallest std::string, = std::string())
         if x not in seen:
             seen.add(x)
             out.append(x)
@@ -90,6 +92,12 @@ def gen_edges(rng, ltype, wtype, nmin=2, nmax=7, lmax=3, recmax=12, profile=None
         if ext not in present and recs:
             old = recs[0][0] if rng.chance(0.7) else rng.choice(recs)[rng.below(2)]
             recs = [(ext if s_ == old else s_, ext if t_ == old else t_, ws_) for s_, t_, ws_ in recs]
+    if ltype == 's' and rng.chance(0.2):
+        # the empty string (= std::string(), the smallest string, what numeric_limits<std::string>::max() returns), preferably as first source
+        present = set(x for s_, t_, _ in recs for x in (s_, t_))
+        if '\\e' not in present and recs:
+            old = recs[0][0] if rng.chance(0.6) else rng.choice(recs)[rng.below(2)]
+            recs = [('\\e' if s_ == old else s_, '\\e' if t_ == old else t_, ws_) for s_, t_, ws_ in recs]
     # make sure there are at least 2 distinct labels in use
     used = set()
     for s, t, _ in recs:
